@@ -56,17 +56,15 @@ int apply_data(point<double> *dest, const span<const linepart> &pts, const trans
 			}
 		}
 		else {
-			if (max < plen) {
-				plen = max;
-			}
-			while (plen > std::numeric_limits<__decltype(tmp.usr)>::max()) {
+			long left = (max < plen) ? max : plen;
+			while (left > std::numeric_limits<__decltype(tmp.usr)>::max()) {
 				tmp.usr = tmp.raw = std::numeric_limits<__decltype(tmp.usr)>::max();
-				plen -= tmp.usr;
+				left -= tmp.usr;
 				tr.apply(i, tmp, to, from);
 				to   += tmp.usr;
 				from += tmp.raw;
 			}
-			tmp.usr = tmp.raw = plen;
+			tmp.usr = tmp.raw = left;
 			tr.apply(i, tmp, to, from);
 		}
 		++proc;
